@@ -203,7 +203,9 @@ def readServerHello (hmac : Bytes → Bytes → Bytes) (clientRandom secret : By
   | .error e => .error e
   | .ok rest =>
     let packet := packetOf s rest
-    if hmac secret (clientRandom ++ zeroDigest packet) = digestOf packet then .ok rest else .error .digest
+    -- the comparison covers `digestCmpLen` bytes (read from the source; 32 = the whole digest)
+    if (hmac secret (clientRandom ++ zeroDigest packet)).take Facts.C19.digestCmpLen
+        = (digestOf packet).take Facts.C19.digestCmpLen then .ok rest else .error .digest
 
 /-! ## ClientHello (`writeClientHello` after `generateClientHello`) -/
 
